@@ -2,6 +2,7 @@ package verifsim
 
 import (
 	"fmt"
+	"os"
 	"math/rand"
 	"runtime"
 	"sort"
@@ -10,6 +11,7 @@ import (
 	"time"
 
 	"github.com/anishathalye/porcupine"
+	"github.com/sanonone/kektordb/pkg/core/hnsw"
 	"github.com/sanonone/kektordb/pkg/engine"
 )
 
@@ -30,7 +32,7 @@ type c13Rec struct {
 	found  bool
 }
 
-var c13Mutating = map[string]bool{"kvset": true, "kvdel": true, "add": true, "del": true, "setmeta": true, "link": true, "unlink": true, "reinforce": true, "snapshot": true, "rewrite": true, "create": true, "drop": true, "compress": true, "addbatch": true}
+var c13Mutating = map[string]bool{"delq": true, "kvset": true, "kvdel": true, "add": true, "del": true, "setmeta": true, "link": true, "unlink": true, "reinforce": true, "snapshot": true, "rewrite": true, "create": true, "drop": true, "compress": true, "addbatch": true}
 
 func c13Ops(w *World) [][]Op {
 	r := w.R
@@ -70,9 +72,22 @@ func c13Ops(w *World) [][]Op {
 				if r.Intn(2) == 0 {
 					meta["content"] = pick(r, metaTexts) // text-indexed field: hybrid searches run against concurrent inserts
 				}
+				if r.Intn(3) == 0 {
+					meta["parent"] = pick(r, []string{"hot", "a", "grp"}) // auto-link rule of a third of the runs: the insert links itself
+				}
 				ops = append(ops, Op{K: "add", Idx: ix, ID: fmt.Sprintf("c%dn%d", c, own), Vec: genVec(r, 3), Meta: meta})
 			case 8:
-				if own > 0 {
+				switch x := r.Intn(4); {
+				case x == 0:
+					// an id that every client adds and deletes: per id the outcomes must be those of a register
+					// (an add succeeds only on an absent id, a delete only on a present one)
+					uniq++
+					ops = append(ops, Op{K: pick(r, []string{"add", "add", "del"}), Idx: c13Hot, ID: fmt.Sprintf("s%d", r.Intn(2)), Vec: genVec(r, 3), Meta: map[string]any{"owner": float64(c), "u": float64(uniq*10 + c)}})
+				case x == 1 && own > 0:
+					// delete, then look at once (no settling in between): the id is gone for every reader the
+					// moment the delete is acknowledged, not when its background cascade gets round to it
+					ops = append(ops, Op{K: "delq", Idx: c13Hot, ID: fmt.Sprintf("c%dn%d", c, 1+r.Intn(own))})
+				case own > 0:
 					ops = append(ops, Op{K: "del", Idx: c13Hot, ID: fmt.Sprintf("c%dn%d", c, 1+r.Intn(own))})
 				}
 			case 9:
@@ -88,6 +103,15 @@ func c13Ops(w *World) [][]Op {
 			}
 		}
 		tasks = append(tasks, ops)
+	}
+	if r.Intn(3) == 0 {
+		// every client starts by adding the same new id: exactly one of them may win, and the id keeps the winner's data
+		for c := range tasks {
+			uniq++
+			first := Op{K: "add", Idx: c13Hot, ID: "s0", Vec: genVec(r, 3), Meta: map[string]any{"owner": float64(c), "u": float64(uniq*10 + c)}}
+			at := r.Intn(min(3, len(tasks[c])+1))
+			tasks[c] = append(tasks[c][:at:at], append([]Op{first}, tasks[c][at:]...)...)
+		}
 	}
 	// admin
 	var admin []Op
@@ -132,7 +156,9 @@ func runC13(w *World, tr *Trace) {
 	advProb := 0.0
 	subBuf := -1
 	autoSave := false
+	autoLink := false
 	if tr != nil {
+		autoLink, _ = tr.Extra["auto_link"].(bool)
 		taskOps = tr.Tasks
 		spec = *tr.Sched
 		advProb, _ = tr.Extra["adv_prob"].(float64)
@@ -151,6 +177,7 @@ func runC13(w *World, tr *Trace) {
 			autoSave = true
 			advProb = 0.2
 		}
+		autoLink = r.Intn(3) == 0
 	}
 	w.Opts = w.defaultOpts()
 	if autoSave {
@@ -198,6 +225,29 @@ func runC13(w *World, tr *Trace) {
 		case "q_get":
 			_, rec.err = e.VGet(op.Idx, op.ID)
 			rec.ret = nextSeq()
+		case "delq":
+			rec.err = e.VDelete(op.Idx, op.ID)
+			rec.ret = nextSeq()
+			if rec.err == nil {
+				// ids of the form c<k>n<j> are only ever added by their owner (this task): nobody can have re-added it
+				if ids, ferr := e.VFilter(op.Idx, "owner>=0", 1000); ferr == nil {
+					for _, id := range ids {
+						if id == op.ID {
+							rec.out = "VFilter(owner>=0) still returns " + id
+						}
+					}
+				}
+				if ids, serr := e.VSearch(op.Idx, []float32{0, 0, 0}, 50, "owner>=0", "", 0, 0.5, nil); serr == nil && rec.out == "" {
+					for _, id := range ids {
+						if id == op.ID {
+							rec.out = "VSearch(filter owner>=0) still returns " + id
+						}
+					}
+				}
+				if _, gerr := e.VGet(op.Idx, op.ID); gerr == nil && rec.out == "" {
+					rec.out = "VGet still returns " + op.ID
+				}
+			}
 		default:
 			rec.err, rec.out = w.execOn(e, op)
 			rec.ret = nextSeq()
@@ -205,6 +255,13 @@ func runC13(w *World, tr *Trace) {
 		mu.Lock()
 		recs = append(recs, rec)
 		mu.Unlock()
+		if os.Getenv("KDSIM_DUMP") == "3" || (os.Getenv("KDSIM_DUMP") == "4" && op.K == "maint") {
+			if idx, ok := e.DB.GetVectorIndex(c13Hot); ok {
+				if h, ok := idx.(*hnsw.Index); ok {
+					fmt.Fprintf(os.Stderr, "AFTER %s %s err=%v [%d..%d]\n%s\n", t.Name, op.String(), rec.err, rec.inv, rec.ret, h.VerifDump())
+				}
+			}
+		}
 	}
 
 	var tasks []*Task
@@ -234,6 +291,9 @@ func runC13(w *World, tr *Trace) {
 		must(e.VAdd(c13Hot, "a", []float32{0, 1, 0}, nil))
 		must(e.VAdd(c13Hot, "b", []float32{0, 0, 1}, nil))
 		must(e.VAdd(c13Churn, "seed", []float32{1, 1, 1}, nil))
+		if autoLink {
+			must(e.VUpdateAutoLinks(c13Hot, []hnsw.AutoLinkRule{{MetadataField: "parent", RelationType: "child_of", CreateNode: true}}))
+		}
 		if subBuf >= 0 {
 			e.EventBus.Subscribe(subBuf) // a subscriber that never reads
 		}
@@ -298,6 +358,39 @@ func runC13(w *World, tr *Trace) {
 				}
 			}
 		}
+		for _, rc := range recs {
+			if rc.op.K == "delq" && rc.err == nil && rc.out != "" {
+				w.Fail("per_item_serial", "deleted_id_still_visible", fmt.Sprintf("%s was acknowledged, and straight afterwards %s", rc.op.String(), rc.out), -1)
+				return
+			}
+		}
+		if why := idRegisterLinearizable(recs); why != "" {
+			w.Fail("per_item_serial", "id_register_not_linearizable", why, -1)
+			return
+		}
+		// a shared id holds the data of an add that was acknowledged, never of one that was refused
+		refused := map[float64]string{}
+		for _, rc := range recs {
+			if rc.op.K == "add" && strings.HasPrefix(rc.op.ID, "s") && rc.err != nil && strings.Contains(rc.err.Error(), "already exists") {
+				if u, ok := rc.op.Meta["u"].(float64); ok {
+					refused[u] = rc.op.String()
+				}
+			}
+		}
+		checkShared := func(e *engine.Engine, where string) {
+			for _, id := range []string{"s0", "s1"} {
+				vd, err := e.VGet(c13Hot, id)
+				if err != nil {
+					continue
+				}
+				if u, ok := vd.Metadata["u"].(float64); ok {
+					if what, bad := refused[u]; bad {
+						w.Fail("per_item_serial", "refused_add_took_effect", fmt.Sprintf("%s: %s holds the data (u=%v) of %s, which was refused with 'already exists'", where, id, u, what), -1)
+						return
+					}
+				}
+			}
+		}
 		checkHot := func(e *engine.Engine, where string) {
 			vd, err := e.VGet(c13Hot, "hot")
 			if err != nil {
@@ -350,6 +443,8 @@ func runC13(w *World, tr *Trace) {
 				}
 			}
 			checkHot(w.E, "live")
+			checkShared(w.E, "live")
+			c13Structure(w, "live")
 			if err := w.E.Close(); err != nil {
 				w.Probe("close_error")
 			}
@@ -371,6 +466,9 @@ func runC13(w *World, tr *Trace) {
 		}
 		settle()
 		checkHot(e2, "after restart")
+		if !w.Failed() {
+			checkShared(e2, "after restart")
+		}
 		e2.Close()
 		settle()
 		w.Res.SimNS = int64(time.Since(w.Start))
@@ -396,7 +494,7 @@ func runC13(w *World, tr *Trace) {
 	if subBuf >= 0 {
 		w.Probe("slow_subscriber")
 	}
-	w.Res.Trace = &Trace{Prop: "C13", Seed: w.Seed, Profile: map[string]any{}, Tasks: taskOps, Sched: &spec, Extra: map[string]any{"adv_prob": advProb, "sub_buf": subBuf, "auto_save": autoSave}}
+	w.Res.Trace = &Trace{Prop: "C13", Seed: w.Seed, Profile: map[string]any{}, Tasks: taskOps, Sched: &spec, Extra: map[string]any{"adv_prob": advProb, "sub_buf": subBuf, "auto_save": autoSave, "auto_link": autoLink}}
 	var sk []string
 	for _, ops := range taskOps {
 		var ks []string
@@ -410,6 +508,183 @@ func runC13(w *World, tr *Trace) {
 		w.Res.Fingerprint = hashStr(w.Res.Skeleton, fmt.Sprint(sres.SchedHash))
 		w.Res.Nontrivial = len(recs) >= 6 && sres.Grants > 10
 	}
+}
+
+// c13Structure: after the run has settled, every id listed once, and the layered graph of the hot index sound
+// where live nodes are concerned (a delete that overlaps a vacuum must not leave a live node pointing at a
+// removed one, nor the entry point on a removed node).
+func c13Structure(w *World, where string) {
+	if w.Failed() || w.E == nil {
+		return
+	}
+	seen := map[string]int{}
+	var cur uint32
+	for page := 0; page < 50; page++ {
+		ids, next, err := w.E.VGetIDsByCursor(c13Hot, cur, 64)
+		if err != nil {
+			return
+		}
+		for _, id := range ids {
+			seen[id]++
+		}
+		if next == 0 || len(ids) == 0 {
+			break
+		}
+		cur = next
+	}
+	for id, n := range seen {
+		if n > 1 {
+			w.Fail("per_item_serial", "id_listed_twice", fmt.Sprintf("%s: the cursor listing of %s returns %s %d times", where, c13Hot, id, n), -1)
+			return
+		}
+		if _, err := w.E.VGet(c13Hot, id); err != nil {
+			w.Fail("per_item_serial", "listed_id_unreadable", fmt.Sprintf("%s: the cursor listing of %s returns %s, VGet: %v", where, c13Hot, id, err), -1)
+			return
+		}
+	}
+	idx, ok := w.E.DB.GetVectorIndex(c13Hot)
+	if !ok {
+		return
+	}
+	h, ok := idx.(*hnsw.Index)
+	if !ok {
+		return
+	}
+	probs, stats := h.VerifStructure(false)
+	for _, p := range probs {
+		// the parts of the structural invariant that searches depend on at once: a dangling neighbour id is
+		// skipped by the search and is judged through its effect (exactness below), a missing entry point is not
+		if strings.Contains(p, "entry point") && strings.Contains(p, "does not exist") {
+			w.Fail("graph_sound_after_concurrent_maintenance", "entry_point_missing", where+": "+p, -1)
+			return
+		}
+	}
+	// C07's small regime, reached through a concurrent history: at most 2*M nodes (deleted, not yet vacuumed ones
+	// included) means a fully connected base layer, so every live vector is found by its own value
+	if stats["present"] <= 16 {
+		for id := range seen {
+			vd, err := w.E.VGet(c13Hot, id)
+			if err != nil || len(vd.Vector) != 3 {
+				continue
+			}
+			res, err := w.E.VSearch(c13Hot, cloneVec(vd.Vector), 3, "", "", 0, 0.5, nil)
+			if err != nil {
+				continue
+			}
+			found := false
+			for _, r := range res {
+				if r == id {
+					found = true
+				}
+			}
+			if !found {
+				twin := false // another live id with the very same vector may take its place
+				for _, r := range res {
+					if o, oerr := w.E.VGet(c13Hot, r); oerr == nil && fmt.Sprint(o.Vector) == fmt.Sprint(vd.Vector) {
+						twin = true
+					}
+				}
+				if !twin {
+					if os.Getenv("KDSIM_DUMP") != "" {
+						fmt.Fprintln(os.Stderr, h.VerifDump())
+						fmt.Fprintln(os.Stderr, "query", id, vd.Vector)
+						for o := range seen {
+							if ov, oerr := w.E.VGet(c13Hot, o); oerr == nil {
+								fmt.Fprintln(os.Stderr, "  ", o, ov.Vector, refDistance("euclidean", vd.Vector, ov.Vector))
+							}
+						}
+						sc, _ := w.E.VSearchWithScores(c13Hot, cloneVec(vd.Vector), 10)
+						for _, x := range sc {
+							fmt.Fprintln(os.Stderr, "  scored", x.ID, x.Score)
+						}
+					}
+					w.Fail("graph_sound_after_concurrent_maintenance", "small_index_not_exact", fmt.Sprintf("%s: %s holds %d nodes (<= 2*M): VSearch for the vector of %s returns %v, not %s", where, c13Hot, stats["present"], id, res, id), -1)
+					return
+				}
+			}
+		}
+	}
+	if len(seen) > 0 {
+		if res, err := w.E.VSearch(c13Hot, []float32{1, 2, 3}, 5, "", "", 0, 0.5, nil); err == nil && len(res) == 0 {
+			w.Fail("graph_sound_after_concurrent_maintenance", "search_returns_nothing", fmt.Sprintf("%s: %d ids are listed, VSearch returns none", where, len(seen)), -1)
+		}
+	}
+}
+
+// idRegisterLinearizable: per shared id (s0, s1 of the hot index) the acknowledged and refused adds and deletes
+// must have an order in which an add succeeds exactly on an absent id and a delete exactly on a present one.
+func idRegisterLinearizable(recs []*c13Rec) string {
+	type in struct {
+		op string
+		id string
+	}
+	model := porcupine.Model{
+		Partition: func(history []porcupine.Operation) [][]porcupine.Operation {
+			m := map[string][]porcupine.Operation{}
+			for _, o := range history {
+				k := o.Input.(in).id
+				m[k] = append(m[k], o)
+			}
+			var out [][]porcupine.Operation
+			for _, v := range m {
+				out = append(out, v)
+			}
+			return out
+		},
+		Init: func() interface{} { return false },
+		Step: func(state, input, output interface{}) (bool, interface{}) {
+			present := state.(bool)
+			ok := output.(bool)
+			switch input.(in).op {
+			case "add":
+				if ok {
+					return !present, true
+				}
+				return present, present
+			default:
+				if ok {
+					return present, false
+				}
+				return !present, present
+			}
+		},
+		DescribeOperation: func(input, output interface{}) string {
+			return fmt.Sprintf("%s(%s) -> ok=%v", input.(in).op, input.(in).id, output)
+		},
+	}
+	var ops []porcupine.Operation
+	skip := map[string]bool{}
+	for _, rc := range recs {
+		if rc.op.Idx != c13Hot || !strings.HasPrefix(rc.op.ID, "s") || (rc.op.K != "add" && rc.op.K != "del") {
+			continue
+		}
+		if rc.err != nil {
+			e := rc.err.Error()
+			if !(strings.Contains(e, "already exists") || strings.Contains(e, "not found")) {
+				skip[rc.op.ID] = true // closed engine, persistence error: the effect is not determined
+				continue
+			}
+		}
+		ops = append(ops, porcupine.Operation{ClientId: rc.task, Input: in{rc.op.K, rc.op.ID}, Call: rc.inv, Output: rc.err == nil, Return: rc.ret})
+	}
+	var keep []porcupine.Operation
+	for _, o := range ops {
+		if !skip[o.Input.(in).id] {
+			keep = append(keep, o)
+		}
+	}
+	if len(keep) == 0 || len(keep) > 120 {
+		return ""
+	}
+	if res := porcupine.CheckOperationsTimeout(model, keep, 20*time.Second); res == porcupine.Illegal {
+		var b strings.Builder
+		sort.Slice(keep, func(i, j int) bool { return keep[i].Call < keep[j].Call })
+		for _, o := range keep {
+			fmt.Fprintf(&b, "[%d..%d] t%d %s\n", o.Call, o.Return, o.ClientId, model.DescribeOperation(o.Input, o.Output))
+		}
+		return "adds and deletes of a shared id have no serial order:\n" + b.String()
+	}
+	return ""
 }
 
 // ---- KV linearizability with porcupine (event sequence numbers as call/return times)
